@@ -310,6 +310,10 @@ pub struct Sim {
     /// reports is kept in `task_bad`
     pub task_hook: Option<fn(&Sim, &str) -> Result<(), (String, String, String)>>,
     pub task_bad: Option<(String, String, String)>,
+    /// seconds the virtual clock may still be advanced (the embedded trust
+    /// anchor's manifest is only refreshed by signer exchanges, so histories
+    /// stay below its next-update time)
+    pub advance_budget: i64,
 }
 
 #[derive(Debug)]
@@ -342,6 +346,7 @@ pub fn pick<T>(sel: u16, len: usize) -> Option<usize> {
 impl Sim {
     pub fn new(cfg: WorldCfg, key_start: usize) -> Result<Self, Fail> {
         clock::reset(0);
+        let budget = (cfg.ta_mft_weeks * 7 - 8) * 86400;
         let w = World::new(cfg, key_start).map_err(Fail::Harness)?;
         w.init_repo_and_ta().map_err(Fail::Harness)?;
         w.schedule(Task::QueueStartTasks).map_err(Fail::Harness)?;
@@ -355,6 +360,7 @@ impl Sim {
             cas_ever: BTreeSet::new(),
             task_hook: None,
             task_bad: None,
+            advance_budget: budget,
         })
     }
 
@@ -989,7 +995,9 @@ impl Sim {
                 }
             }
             Op::Advance { secs } => {
-                clock::advance(*secs as i64);
+                let secs = (*secs as i64).min(self.advance_budget).max(0);
+                self.advance_budget -= secs;
+                clock::advance(secs);
                 self.flags.hit("clock_advanced");
                 Ok(())
             }
